@@ -363,6 +363,18 @@ Fixpoint t_dec_stream (fuel : nat) (t : ctable) (l : list Z) : option (list Z) :
       end
   end.
 
+(* the framing laws of a zstd codec the theorems are relative to (hypotheses, never axioms):
+   DecodeAll inverts EncodeAll; the streaming decoder decodes a frame DecodeAll accepts and goes
+   on with the rest; it ends cleanly at the end of input; it skips skippable frames *)
+Record codec_laws (enc : list Z -> list Z) (dec_all dec_stream : list Z -> option (list Z)) : Prop :=
+  mkCodecLaws {
+    law_dec_enc : forall x, dec_all (enc x) = Some x;
+    law_stream_frame : forall f p r,
+      dec_all f = Some p -> dec_stream (f ++ r) = option_map (app p) (dec_stream r);
+    law_stream_nil : dec_stream [] = Some [];
+    law_stream_skippable : forall l n,
+      skippable_len l = Some n -> dec_stream l = dec_stream (zskipn n l) }.
+
 Inductive hobs := HOk (usize comp chunk : Z) (offs : list Z) | HErr (code : Z) | HPanic.
 Inductive robs := ROk (bytes : list Z) | RErr (code : Z) | RPanic.
 Inductive wobs :=
